@@ -743,20 +743,6 @@ theorem signAt_none_iff (str : List UInt8) (k : Nat) (hk : 0 < k) : signAt str k
     have : str[str.length - k]? = some str[str.length - k] := List.getElem?_eq_getElem hlt
     rw [this]; simp; omega
 
-theorem timeTZStyle_none_iff (str : List UInt8) : timeTZStyle str = none ↔ str.length < 9 := by
-  unfold timeTZStyle
-  have h9 := signAt_none_iff str 9 (by omega)
-  have h6 := signAt_none_iff str 6 (by omega)
-  cases hs9 : signAt str 9 with
-  | none => have := h9.1 hs9; simp [this]
-  | some b =>
-    have hl : ¬ str.length < 9 := fun h => by rw [h9.2 h] at hs9; cases hs9
-    cases b
-    · cases hs6 : signAt str 6 with
-      | none => have := h6.1 hs6; omega
-      | some b6 => cases b6 <;> simp [hl]
-    · simp [hl]
-
 theorem unquote_none_iff (data : List UInt8) : unquote data = none ↔ data.length < 2 := by
   unfold unquote; split <;> simp_all
 
@@ -769,30 +755,20 @@ theorem unquote_length (data str : List UInt8) (h : unquote data = some str) : s
 theorem parsedOr_ne_panic (k : GoTime → DateTime) (o : Option GoTime) : parsedOr k o ≠ .panic := by
   cases o <;> simp [parsedOr]
 
-/-- `UnmarshalJSON` panics exactly on input shorter than 2 bytes and, for `TimeTZ`, on input
-    shorter than 11 bytes (a quoted string of fewer than 9 bytes) -/
-theorem unmarshalJSON_panic_iff (kind : DTKind) (data : List UInt8) :
-    unmarshalJSON kind data = .panic ↔ (data.length < 2 ∨ (kind = .timetz ∧ data.length < 11)) := by
+/-- repaired defect D21: `UnmarshalJSON` never panics, whatever the bytes and the type -/
+theorem unmarshalJSON_never_panics (kind : DTKind) (data : List UInt8) :
+    unmarshalJSON kind data ≠ .panic := by
   unfold unmarshalJSON
-  cases hq : unquote data with
-  | none => have := (unquote_none_iff data).1 hq; simp [this]
-  | some str =>
-    have hl : ¬ data.length < 2 := fun h => by rw [(unquote_none_iff data).2 h] at hq; cases hq
-    have hlen := unquote_length data str hq
-    cases kind
-    · simp [parsedOr_ne_panic, hl]
-    · simp [parsedOr_ne_panic, hl]
-    · cases hst : timeTZStyle str with
-      | none => have := (timeTZStyle_none_iff str).1 hst; simp only [hst]; simp; omega
-      | some st =>
-        have : ¬ str.length < 9 := fun h => by rw [(timeTZStyle_none_iff str).2 h] at hst; cases hst
-        simp only [hst]; simp [parsedOr_ne_panic]; omega
-    · simp [parsedOr_ne_panic, hl]
-    · simp [parsedOr_ne_panic, hl]
+  split
+  · simp
+  · cases kind <;> exact parsedOr_ne_panic _ _
 
-/-- in particular every JSON document of one byte (`0` … `9`) makes every type panic -/
-theorem unmarshalJSON_one_byte (kind : DTKind) (b : UInt8) : unmarshalJSON kind [b] = .panic :=
-  (unmarshalJSON_panic_iff kind [b]).2 (Or.inl (by simp))
+/-- input shorter than two bytes (no room for the quotes) is an error -/
+theorem unmarshalJSON_short (kind : DTKind) (data : List UInt8) (h : data.length < 2) :
+    unmarshalJSON kind data = .err := by
+  unfold unmarshalJSON
+  rw [(unquote_none_iff data).2 h]
+
 
 
 /-! ## C17: comparison versus comparison after an explicit cast -/
